@@ -276,12 +276,15 @@ func runC16CaseCh(t *testing.T, c c16Case, early chan CaseOut) CaseOut {
 // runC16Burst: n datagrams in a row to n different unbound services while the sender's subscriber takes
 // `slow` (virtual) per notice: every one of them is reported, once, to the sender only.
 func runC16Burst(t *testing.T, topo, src, dst string, n int, slow time.Duration, extra int) CaseOut {
-	return runC16BurstX(t, topo, src, dst, n, slow, extra, false)
+	return runC16BurstX(t, topo, src, dst, n, slow, extra, false, 0)
 }
 
 // closedBusy: before the burst an unrelated socket of the sender node, whose subscriber never reads, collects
 // two notices of its own and is then closed.
-func runC16BurstX(t *testing.T, topo, src, dst string, n int, slow time.Duration, extra int, closedBusy bool) CaseOut {
+// twin: 1 = a second socket "snd2" of the same node sends to the same n services right behind the first one (each
+// socket gets its own notice for each of its datagrams); 2 = the one socket sends every datagram twice (two notices
+// per service: every datagram that finds no listener is reported).
+func runC16BurstX(t *testing.T, topo, src, dst string, n int, slow time.Duration, extra int, closedBusy bool, twin int) CaseOut {
 	var out CaseOut
 	out.Nontrivial = true
 	bubble(t, func(t *testing.T) {
@@ -375,10 +378,37 @@ func runC16BurstX(t *testing.T, topo, src, dst string, n int, slow time.Duration
 				}
 			}
 		}()
+		var got2 []netceptor.UnreachableNotification
+		var snd2 netceptor.PacketConner
+		if twin == 1 {
+			snd2, err = m.nodes[src].ListenPacket("snd2")
+			if err != nil {
+				out.violate("harness:c16-listen", "%v", err)
+				return
+			}
+			ch2 := snd2.SubscribeUnreachable(done)
+			go func() {
+				for nt := range ch2 {
+					mu.Lock()
+					got2 = append(got2, nt)
+					mu.Unlock()
+				}
+			}()
+		}
 		synctest.Wait()
 		for i := 0; i < n; i++ {
 			if _, err := snd.WriteTo([]byte("hello"), m.nodes[src].NewAddr(dst, fmt.Sprintf("tgt%d", i))); err != nil {
 				out.violate("unk:write-error", "burst %s->%s #%d: %v", src, dst, i, err)
+			}
+			if twin == 2 {
+				if _, err := snd.WriteTo([]byte("hello again"), m.nodes[src].NewAddr(dst, fmt.Sprintf("tgt%d", i))); err != nil {
+					out.violate("unk:write-error", "burst %s->%s #%d (second copy): %v", src, dst, i, err)
+				}
+			}
+			if twin == 1 {
+				if _, err := snd2.WriteTo([]byte("hello"), m.nodes[src].NewAddr(dst, fmt.Sprintf("tgt%d", i))); err != nil {
+					out.violate("unk:write-error", "burst %s(snd2)->%s #%d: %v", src, dst, i, err)
+				}
 			}
 		}
 		synctest.Wait()
@@ -413,7 +443,24 @@ func runC16BurstX(t *testing.T, topo, src, dst string, n int, slow time.Duration
 		time.Sleep(time.Duration(n+2)*slow + 2*time.Second)
 		synctest.Wait()
 		mu.Lock()
-		ctx := fmt.Sprintf("burst topo=%s %s->%s n=%d reader=%v extra=%d after-busy-socket-closed=%v", topo, src, dst, n, slow, extra, closedBusy)
+		ctx := fmt.Sprintf("burst topo=%s %s->%s n=%d reader=%v extra=%d after-busy-socket-closed=%v twin=%d", topo, src, dst, n, slow, extra, closedBusy, twin)
+		want := 1
+		if twin == 2 {
+			want = 2
+		}
+		seen2 := map[string]int{}
+		for _, nt := range got2 {
+			seen2[nt.ToService]++
+			if nt.Problem != netceptor.ProblemServiceUnknown || nt.FromNode != src || nt.FromService != "snd2" || nt.ToNode != dst || nt.ReceivedFromNode != dst {
+				out.violate("unk:notice-fields", "%s: second socket: notice %+v does not name the original packet", ctx, nt)
+			}
+		}
+		for i := 0; i < n && twin == 1; i++ {
+			svc := fmt.Sprintf("tgt%d", i)
+			if seen2[svc] != 1 {
+				out.violate(fmt.Sprintf("unk:second-socket-notice-count:%d", seen2[svc]), "%s: the second socket received %d notices for %s (by service: %v)", ctx, seen2[svc], svc, seen2)
+			}
+		}
 		seen := map[string]int{}
 		for _, nt := range got {
 			seen[nt.ToService]++
@@ -423,7 +470,7 @@ func runC16BurstX(t *testing.T, topo, src, dst string, n int, slow time.Duration
 		}
 		for i := 0; i < n; i++ {
 			svc := fmt.Sprintf("tgt%d", i)
-			if seen[svc] != 1 {
+			if seen[svc] != want {
 				out.violate(fmt.Sprintf("unk:burst-notice-count:%d", seen[svc]), "%s: %d notices for %s (all notices by service: %v)", ctx, seen[svc], svc, seen)
 			}
 		}
@@ -448,8 +495,18 @@ func runC16(w *W) {
 		for _, n := range []int{1, 2, 3} {
 			pr, n := pr, n
 			w.Case(fmt.Sprintf("burst after a busy unrelated socket was closed topo=%s %s->%s n=%d", pr[0], pr[1], pr[2], n), func() CaseOut {
-				return runC16BurstX(w.T, pr[0], pr[1], pr[2], n, 0, 1, true)
+				return runC16BurstX(w.T, pr[0], pr[1], pr[2], n, 0, 1, true, 0)
 			})
+		}
+	}
+	for _, pr := range [][3]string{{"chain2", "a", "b"}, {"chain3", "a", "c"}, {"square", "a", "c"}} {
+		for _, n := range []int{1, 2, 3} {
+			for _, twin := range []int{1, 2} {
+				pr, n, twin := pr, n, twin
+				w.Case(fmt.Sprintf("burst twin=%d topo=%s %s->%s n=%d", twin, pr[0], pr[1], pr[2], n), func() CaseOut {
+					return runC16BurstX(w.T, pr[0], pr[1], pr[2], n, 0, 1, false, twin)
+				})
+			}
 		}
 	}
 	for _, pr := range [][3]string{{"chain2", "a", "b"}, {"chain3", "a", "c"}, {"square", "a", "c"}} {
